@@ -79,8 +79,9 @@ def exc_signature(clause, exc):
 
 
 class Collector:
-    def __init__(self, check, max_samples=4):
+    def __init__(self, check, max_samples=4, use_alarm=True):
         self.check = check
+        self.use_alarm = use_alarm
         self.evaluations = 0
         self.nontrivial = set()
         self.labels = {}
@@ -92,19 +93,22 @@ class Collector:
         self.harness_errors = []
 
     def run(self, case):
-        signal.signal(signal.SIGALRM, _alarm)
-        signal.setitimer(signal.ITIMER_REAL, CASE_REAL_TIMEOUT)
+        if self.use_alarm:
+            signal.signal(signal.SIGALRM, _alarm)
+            signal.setitimer(signal.ITIMER_REAL, CASE_REAL_TIMEOUT)
         try:
             res = self.check.run_case(case)
         except CaseTimeout:
             res = Result()
             res.inconclusive = "real-time budget of one case reached"
         except Exception as e:  # noqa: BLE001 - a harness bug, reported as exit 2
-            signal.setitimer(signal.ITIMER_REAL, 0)
+            if self.use_alarm:
+                signal.setitimer(signal.ITIMER_REAL, 0)
             self.harness_errors.append((case, "".join(traceback.format_exception(type(e), e, e.__traceback__))[-3000:]))
             return None
         finally:
-            signal.setitimer(signal.ITIMER_REAL, 0)
+            if self.use_alarm:
+                signal.setitimer(signal.ITIMER_REAL, 0)
         self.add(case, res)
         return res
 
@@ -152,6 +156,8 @@ def _worker(args):
         check = _load_check(modname)
         boot.lib()
         part = check.parts(tier)[part_idx]
+        if part.kind == "fuzz":
+            return _fuzz_job(modname, tier, part_idx, part, shard, seedval)
         coll = Collector(check)
         if part.kind == "enum":
             for i, case in enumerate(part.source()):
@@ -166,6 +172,36 @@ def _worker(args):
         return out
     except BaseException as e:  # noqa: BLE001
         return {"fatal": "".join(traceback.format_exception(type(e), e, e.__traceback__))[-4000:]}
+
+
+def _fuzz_job(modname, tier, part_idx, part, shard, seedval):
+    """one coverage-guided campaign (atheris/libFuzzer) in a child process; the child collects
+    results exactly like the other parts and leaves them in a pickle"""
+    import pickle
+    import shutil
+    import subprocess
+    import tempfile
+    spec = part.source()
+    work = tempfile.mkdtemp(prefix="vfuzz_%s_%d_" % (modname, shard), dir=os.path.join(boot.VERIF, "out") if os.path.isdir(
+        os.path.join(boot.VERIF, "out")) else None)
+    try:
+        out = os.path.join(work, "result.pkl")
+        cmd = [sys.executable, os.path.join(boot.VERIF, "vlib", "harness", "fuzz_target.py"), modname, spec["decoder"], work,
+               str(spec["seconds"]), str(seedval % (2 ** 31 - 1) + 1), str(spec.get("max_len", 256)), str(shard)]
+        env = dict(os.environ, PYTHONHASHSEED="0")
+        p = subprocess.run(cmd, stdout=subprocess.PIPE, stderr=subprocess.STDOUT, env=env, timeout=spec["seconds"] * 3 + 300)
+        if not os.path.exists(out):
+            tail = p.stdout.decode(errors="replace")[-1500:]
+            if "atheris is not installed" in tail:
+                return {"evaluations": 0, "nontrivial": set(), "labels": {}, "sigs": {}, "samples": [], "nt_samples": [],
+                        "inconclusive": {"atheris not available (run setup_cmd)": 1}, "harness_errors": [], "part": part.name}
+            return {"fatal": "fuzz child produced no result (rc %s):\n%s" % (p.returncode, tail)}
+        with open(out, "rb") as f:
+            res = pickle.load(f)
+        res["part"] = part.name
+        return res
+    finally:
+        shutil.rmtree(work, ignore_errors=True)
 
 
 def _run_hypothesis(strategy, n, seedval, coll):
@@ -360,7 +396,7 @@ def main(modname, tier, seed):
     # 2. enumerated and generated parts, sharded
     jobs = []
     for pi, part in enumerate(parts):
-        nsh = NPROC if (part.kind == "enum" or (part.n or 0) >= NPROC * 4) else max(1, min(NPROC, (part.n or 1) // 4))
+        nsh = NPROC if (part.kind in ("enum", "fuzz") or (part.n or 0) >= NPROC * 4) else max(1, min(NPROC, (part.n or 1) // 4))
         for sh in range(nsh):
             jobs.append((modname, tier, pi, sh, nsh, _subseed(seed, pi, sh)))
     if jobs:
